@@ -47,6 +47,10 @@ const REQ_BUFS: &[&[u8]] = &[
     b"GET  /m  HTTP/1.1\r\n X: y\r\nbad\r\nZ: w\r\n\r\n",
     // strict: stores A then fails on the next line; lenient: drops that line
     b"GET /n HTTP/1.1\r\nA: 1\r\n there\r\nB: 2\r\n\r\n",
+    // near misses of the shapes above: a known method / path followed by a wrong delimiter
+    b"GET/a HTTP/1.1\r\nH1: v1\r\n\r\n",
+    b"GET /a\tHTTP/1.1\r\n\r\n",
+    b"GET /a HTTP/1.1\nH1: v1\n\n",
 ];
 
 const RESP_BUFS: &[&[u8]] = &[
@@ -70,6 +74,9 @@ const RESP_BUFS: &[&[u8]] = &[
     // strict: stores "Folded: hello" then fails on the continuation; lenient: one folded header
     b"HTTP/1.1 200 OK\r\nFolded: hello\r\n there\r\nB: 1\r\n\r\n",
     b"HTTP/1.1 200\r\nA: 1\r\n\r\n",
+    b"HTTP/1.1200 OK\r\nH1: v1\r\n\r\n",
+    b"HTTP/1.1 200OK\r\n\r\n",
+    b"HTTP/1.0 200 OK\nH1: v1\n\n",
 ];
 
 fn lenient() -> ParserConfig {
